@@ -162,6 +162,21 @@ def run(ctx, cell):
                           (":%d:" % int(call_line)) in st[0],
                           "C20:fault:infunc:stacktrace-wrong-line",
                           lambda: {"text": str(text), "entry": st[0], "expected_line": int(call_line)})
+            # every entry belongs to this error: one call deep, this file
+            ctx.check(len(st) == 1 and all("prog.ckl:" in x for x in st), "C20:fault:infunc:stacktrace-has-foreign-entries",
+                      lambda: {"text": str(text), "entries": st})
+            # ... also for a later error in another file, after this one (caught or not) has been handled
+            from harness.common import fresh_interp
+            first = run_ckl("do " + "f(1)" + " catch all 0 end", name="prog.ckl")
+            out2 = run_ckl("def g(y) do\n  undefined_other\nend;\n" + g1 + "g(2)", name="second.ckl", it=fresh_interp())
+            if out2.kind == "rt":
+                st2 = [str(x) for x in out2.exc.stacktrace]
+                line2 = 4 + count_nl(list(g1))
+                ctx.check(len(st2) == 1 and all("second.ckl:%d:" % int(line2) in x for x in st2),
+                          "C20:fault:infunc:stacktrace-of-later-error-has-foreign-entries",
+                          lambda: {"entries": st2, "expected_line": int(line2)})
+            else:
+                ctx.fail("C20:fault:infunc:second-program-unexpected-outcome-%s" % out2.kind)
         return [out.kind, e.pos.line if e.pos is not None else None]
     if k == "inner":
         ctx.reach("fault")
